@@ -71,6 +71,12 @@ pub fn smallvec_push_inline<A: smallvec::Array>(v: &mut smallvec::SmallVec<A>, x
     }
 }
 
+/// stub for String::from_utf8 in reader harnesses whose rest fields are ASCII by construction: skips the
+/// validation loops (which fork per byte once the bytes have gone through a memcpy)
+pub fn from_utf8_trusting(v: Vec<u8>) -> Result<String, std::string::FromUtf8Error> {
+    Ok(unsafe { String::from_utf8_unchecked(v) })
+}
+
 /// poll a future once with a no-op waker (the bigtools encode/process futures have no real
 /// suspension point once the channel is always ready)
 pub fn poll_once<F: Future>(f: F) -> Option<F::Output> {
@@ -79,6 +85,19 @@ pub fn poll_once<F: Future>(f: F) -> Option<F::Output> {
     match f.as_mut().poll(&mut cx) {
         Poll::Ready(v) => Some(v),
         Poll::Pending => None,
+    }
+}
+
+/// like poll_once under Kani; in the native replay the future is driven to completion on the real
+/// executor (real task handles complete on the real runtime)
+pub fn drive<F: Future>(f: F) -> Option<F::Output> {
+    #[cfg(not(verif_replay))]
+    {
+        poll_once(f)
+    }
+    #[cfg(verif_replay)]
+    {
+        Some(futures::executor::block_on(f))
     }
 }
 
@@ -182,6 +201,49 @@ pub mod env {
         #[cfg(verif_replay)]
         {
             futures::executor::block_on(h).unwrap()
+        }
+    }
+
+    /// target of the source substitution `frx.next().await` -> `recv_now(&mut frx)` (harness
+    /// c14_write_data_fault): the receiving end of the section channel. Under Kani the queued task handles
+    /// come from a two-slot queue filled by `queue_for_recv` (the channel is closed once it is empty);
+    /// natively it is the real receiver.
+    pub static mut RECV_Q: [usize; 2] = [0x4EC7_0000_0000_0001, 0x4EC7_0000_0000_0002];
+    pub const RECV_BASE: usize = 0x4EC7_0000_0000_0100;
+    pub static mut RECV_HEAD: usize = RECV_BASE;
+    pub static mut RECV_TAIL: usize = RECV_BASE + 0x10;
+    pub fn queue_for_recv(tx: &mut Sender<Msg>, msg: Msg) {
+        #[cfg(not(verif_replay))]
+        unsafe {
+            let _ = tx;
+            let n = RECV_TAIL - (RECV_BASE + 0x10);
+            kani::assert(n < 2, "[env] receive queue capacity");
+            RECV_Q[n] = core::mem::transmute_copy::<Msg, usize>(&msg);
+            core::mem::forget(msg);
+            RECV_TAIL += 1;
+        }
+        #[cfg(verif_replay)]
+        {
+            tx.try_send(msg).expect("queue");
+        }
+    }
+    pub fn recv_now(rx: &mut Receiver<Msg>) -> Option<Msg> {
+        #[cfg(not(verif_replay))]
+        unsafe {
+            let _ = rx;
+            let h = RECV_HEAD - RECV_BASE;
+            let t = RECV_TAIL - (RECV_BASE + 0x10);
+            if h < t {
+                RECV_HEAD += 1;
+                Some(core::mem::transmute_copy::<usize, Msg>(&RECV_Q[h]))
+            } else {
+                None
+            }
+        }
+        #[cfg(verif_replay)]
+        {
+            use futures::StreamExt;
+            futures::executor::block_on(rx.next())
         }
     }
 
@@ -434,5 +496,62 @@ pub mod ilist {
             self.items[self.n] = None;
             v
         }
+    }
+}
+
+/// Model of the part of `bytes::BytesMut` that `bigbedread::get_block_entries` uses (with_capacity,
+/// extend_from_slice, len, get_u32, get_u32_le, get_u8, split_to, and Deref to the unread bytes).
+/// Reason: the real BytesMut keeps tagged integers in a pointer field (KIND_VEC position bits) and
+/// promotes to a shared allocation in split_to; under CBMC the pointer<->integer casts make the
+/// remaining length symbolic and symbolic execution of a 27-byte block did not finish in 40 min.
+/// `c02_bytes_model_agrees` checks the model against the real BytesMut on the operation sequence used.
+pub mod bbuf {
+    pub struct BytesMut {
+        v: Vec<u8>,
+        pos: usize,
+    }
+    impl BytesMut {
+        pub fn with_capacity(n: usize) -> Self { BytesMut { v: Vec::with_capacity(n), pos: 0 } }
+        // byte loops instead of memcpy: CBMC's memcpy (array_replace) turns every byte of the destination
+        // object into a byte_extract expression that symex no longer constant-propagates
+        pub fn extend_from_slice(&mut self, s: &[u8]) {
+            let mut i = 0;
+            while i < s.len() {
+                self.v.push(s[i]);
+                i += 1;
+            }
+        }
+        pub fn len(&self) -> usize { self.v.len() - self.pos }
+        fn byte(&mut self) -> u8 {
+            let b = self.v[self.pos];
+            self.pos += 1;
+            b
+        }
+        pub fn get_u8(&mut self) -> u8 { self.byte() }
+        pub fn get_u32(&mut self) -> u32 {
+            assert!(self.len() >= 4, "[bbuf] get_u32 past the end (the real Buf panics too)");
+            let a = [self.byte(), self.byte(), self.byte(), self.byte()];
+            u32::from_be_bytes(a)
+        }
+        pub fn get_u32_le(&mut self) -> u32 {
+            assert!(self.len() >= 4, "[bbuf] get_u32_le past the end (the real Buf panics too)");
+            let a = [self.byte(), self.byte(), self.byte(), self.byte()];
+            u32::from_le_bytes(a)
+        }
+        pub fn split_to(&mut self, at: usize) -> BytesMut {
+            assert!(at <= self.len(), "[bbuf] split_to out of bounds (the real BytesMut panics too)");
+            let mut front = Vec::with_capacity(at);
+            let mut i = 0;
+            while i < at {
+                front.push(self.v[self.pos + i]);
+                i += 1;
+            }
+            self.pos += at;
+            BytesMut { v: front, pos: 0 }
+        }
+    }
+    impl core::ops::Deref for BytesMut {
+        type Target = [u8];
+        fn deref(&self) -> &[u8] { &self.v[self.pos..] }
     }
 }
